@@ -144,7 +144,28 @@ fn run_chunk(prop: &str, tier: Tier, fam: usize, start: u64, end: u64, timeout: 
 }
 
 /// find the single case responsible for a dying chunk
+/// confirmed hangs per family (a hang costs a watchdog period; after `HANG_CAP` of them the rest
+/// of the family is not run and the cap is reported)
+static HANGS: Mutex<Vec<(usize, u64, u64)>> = Mutex::new(Vec::new());
+const HANG_CAP: u64 = 10;
+fn hangs_of(fam_idx: usize) -> u64 {
+    HANGS.lock().unwrap().iter().find(|h| h.0 == fam_idx).map(|h| h.1).unwrap_or(0)
+}
+fn note_hang(fam_idx: usize, hang: bool, skipped: u64) {
+    let mut g = HANGS.lock().unwrap();
+    if let Some(h) = g.iter_mut().find(|h| h.0 == fam_idx) {
+        h.1 += hang as u64;
+        h.2 += skipped;
+    } else {
+        g.push((fam_idx, hang as u64, skipped));
+    }
+}
+
 fn bisect(prop: &str, tier: Tier, fam_idx: usize, fam: &dyn Family, start: u64, end: u64, why: &str, rep: &Mutex<&mut Report>, single_timeout: Duration) {
+    if hangs_of(fam_idx) >= HANG_CAP {
+        note_hang(fam_idx, false, end - start);
+        return;
+    }
     if end - start == 1 {
         // confirm in a fresh process
         match run_chunk(prop, tier, fam_idx, start, end, single_timeout) {
@@ -160,6 +181,9 @@ fn bisect(prop: &str, tier: Tier, fam_idx: usize, fam: &dyn Family, start: u64, 
             ChunkResult::Died(w2) => {
                 let desc = fam.describe(start);
                 let kind = if w2.contains("watchdog") { "hang" } else { "abort" };
+                if kind == "hang" {
+                    note_hang(fam_idx, true, 0);
+                }
                 let mut r = rep.lock().unwrap();
                 r.violations.push(Violation {
                     signature: format!("{kind}:{}", fam.crash_signature(start)),
@@ -218,6 +242,10 @@ pub fn parent(prop: &'static str, tier: Tier, maker: FamilyMaker, rep: &mut Repo
                         break;
                     }
                     let (fi, a, b) = work[i];
+                    if hangs_of(fi) >= HANG_CAP {
+                        note_hang(fi, false, b - a);
+                        continue;
+                    }
                     let (wd_chunk, wd_single) = fams[fi].watchdogs();
                     match run_chunk(prop, tier, fi, a, b, Duration::from_secs(wd_chunk)) {
                         ChunkResult::Done(acc) => repm.lock().unwrap().absorb(acc),
@@ -232,8 +260,15 @@ pub fn parent(prop: &'static str, tier: Tier, maker: FamilyMaker, rep: &mut Repo
             }
         });
     }
-    for b in bounds {
-        rep.bounds.push(format!("{b}: complete"));
+    let capped: Vec<(usize, u64, u64)> = HANGS.lock().unwrap().iter().filter(|h| h.2 > 0).cloned().collect();
+    for (fi, b) in bounds.into_iter().enumerate() {
+        match capped.iter().find(|h| h.0 == fi) {
+            Some(h) => {
+                rep.bounds.push(format!("{b}: stopped after {} confirmed hangs, {} cases not run", h.1, h.2));
+                rep.cap(format!("family {}: {} confirmed hangs (reported as violations); the remaining {} cases were not run", fams[fi].name(), h.1, h.2));
+            }
+            None => rep.bounds.push(format!("{b}: complete")),
+        }
     }
     rep.notes.push(format!("E4: {} chunks in worker subprocesses, {:.1}s", work.len(), t0.elapsed().as_secs_f64()));
 
